@@ -438,8 +438,8 @@ func (s *solo) resultPathTarget(q *peerQ, path []int) (lc *rpcbench.LocalCap, to
 		d := q.argDescs[q.argSlots[rc.ArgSlot]]
 		switch d.Kind {
 		case "receiverHosted":
-			if ce := s.cexp[d.ID]; ce != nil {
-				return ce.local, false, true
+			if l := q.argLocals[q.argSlots[rc.ArgSlot]]; l != nil {
+				return l, false, true
 			}
 		case "senderHosted", "senderPromise":
 			return nil, true, true
